@@ -36,8 +36,9 @@ func h06Body() (string, string) {
 		body += `uses h; `
 		inline += `container hc { leaf hl { type identityref { base idn; } } } `
 	case 1: // a grouping scoped inside a container of the grouping, used there
-		body += `container sc { grouping inner { leaf il { type t; } } uses inner; } `
-		inline += `container sc { leaf il { type t; } } `
+		// two same-named groupings in sibling scopes: each `uses inner` sees its own
+		body += `container sc { grouping inner { leaf il { type t; } } uses inner; } container sd { grouping inner { leaf jl { type string; default "j"; } } uses inner; } `
+		inline += `container sc { leaf il { type t; } } container sd { leaf jl { type string; default "j"; } } `
 	}
 	return body, inline
 }
